@@ -104,7 +104,7 @@ PickOp(rn, s, lv) ==
 GenInit == ver = <<>> /\ live = {} /\ hist = <<>> /\ tick = 0 /\ rnd = [i \in 1..NRnd |-> i * 7919]
 GenNext == /\ tick' = tick + 1
            /\ rnd' = [i \in 1..NRnd |-> Rnd(1000003)]
-           /\ LET o == PickOp(rnd, ver, live) IN Apply(o) /\ hist' = Append(hist, o)
+           /\ LET o == PickOp(rnd, ver, live) IN Apply(o) /\ hist' = Append(hist, [o |-> o, n |-> Len(Eval(o, ver).new)])
 GenSpec == GenInit /\ [][GenNext]_vars
 Dump == (TLCGet("level") = GenDepth) => PrintT(<<"HIST", ToJson([h |-> hist, live |-> SortedSeq(live)])>>)
 =======================================================================
